@@ -109,6 +109,28 @@ def _work(chunk):
                 stale.append((succ, "input", g.region.name, "iter", "ok " + cj(it1), "iteration after adding an entry block does not start with it"))
         except Exception as e:  # noqa: BLE001
             stale.append((succ, "input", "?", "view", "abort " + type(e).__name__, "kept-view history raised"))
+    # a kept view object, iterated once on a loop-restructured graph; then a block is inserted behind one
+    # of its regions through the public API: the same view object must enumerate the edited graph
+    for tag, succ in chunk[1::3]:
+        if tag == "G9-multiway":
+            continue
+        try:
+            g = export.mk_scfg(succ)
+            g.join_returns()
+            g.restructure_loop()
+            regs = [(n, b) for n, b in g.graph.items() if isinstance(b, bb.RegionBlock) and len(b._jump_targets) >= 1]
+            if not regs:
+                continue
+            rname, rblk = regs[0]
+            v = g.concealed_region_view
+            first = list(v)
+            g.insert_SyntheticFill("kept_fill", [rname], [rblk._jump_targets[0]])
+            a, b = list(v), list(g.concealed_region_view)
+            if a != b:
+                stale.append((succ, "loop", g.region.name, "view", "ok " + cj(a),
+                              "view object iterated before a block was inserted behind a region enumerates " + cj(a) + " instead of " + cj(b)))
+        except Exception as e:  # noqa: BLE001
+            stale.append((succ, "loop", "?", "view", "abort " + type(e).__name__, "insert-behind-region history raised"))
     rep = drv.run(lines)
     mism, fails = [], []
     stats = Counter()
